@@ -39,3 +39,42 @@ def part_families(rng, count, maxn=10, maxv=100, maxk=5):
         rng.shuffle(vals)
         out.append({"vals": vals, "k": k})
     return out
+
+
+def rnp_families(rng, count):
+    """4- and 5-bin instances of 6-9 items: the sizes on which the recursive partitioner's even/odd branches do real work"""
+    out = []
+    for i in range(count):
+        n = rng.randint(5, 9)
+        k = rng.choice([3, 4, 4, 4, 5])
+        if k == 5:
+            n = min(n, 8)
+        vals = [rng.randint(0 if i % 5 == 0 else 1, rng.choice([12, 40, 99])) for _ in range(n)]
+        out.append({"vals": vals, "k": k, "only": ["rnp", "snp", "ckk"] if (n <= 8 or k <= 4) else ["rnp", "snp"]})
+    return out
+
+
+def planted_partitions(rng, count, maxitems=300):
+    """instances built as k bins of equal total T (so OPT max = OPT min = T): the certificate is the planted partition"""
+    out = []
+    for _ in range(count):
+        k = rng.randint(2, 6)
+        per = max(1, rng.randint(2, max(2, maxitems // k)))
+        T = rng.randint(per, 2000)
+        vals, cert = [], []
+        for b in range(k):
+            cuts = sorted(rng.randint(0, T) for _ in range(per - 1))
+            parts = [b2 - a for a, b2 in zip([0] + cuts, cuts + [T])]
+            ids = list(range(len(vals) + 1, len(vals) + len(parts) + 1))
+            vals += parts
+            cert.append(ids)
+        # shuffle ids consistently
+        perm = list(range(len(vals)))
+        rng.shuffle(perm)
+        newvals = [0] * len(vals)
+        pos = {}
+        for newi, oldi in enumerate(perm):
+            newvals[newi] = vals[oldi]
+            pos[oldi + 1] = newi + 1
+        out.append({"vals": newvals, "k": k, "cert": [[pos[i] for i in b] for b in cert]})
+    return out
